@@ -49,6 +49,19 @@ CHECKS = {
             "reproduction of unit functions checked in every state.",
             "Bounds d<=3, D<=2..3, s<=2, domain [0,1]^d.",
             "explicit-state BFS over decision histories replayed on the real objects"),
+    "C13": ("DESIGN.md 2/C13",
+            "Exhaustive lattice of limit configurations (tol x min_evaluations x max_evaluations built from the point counts of an "
+            "unlimited baseline, every boundary case) x strategy x integrand x norm, each a complete run of the real adaptive loop "
+            "with the real estimator, compared step by step with a reference model of the loop; distinct-evaluation counter "
+            "kept by the harness-side integrand.",
+            "d=2; six strategy variants; max_time (real clock) not explored.",
+            "exhaustive configuration lattice, reference-model lock-step of the driver loop"),
+    "C14": ("DESIGN.md 2/C14",
+            "Crash-point enumeration: every evaluation index of every uninterrupted run is used as interruption point, in three "
+            "variants (continue / save+restore+continue / save, continue original, restore and continue copy); final structure, "
+            "scheme, result and point count compared with the uninterrupted run; restored instance compared with the saved one.",
+            "d=2; real estimators; dill persistence into a scratch directory.",
+            "exhaustive interruption-point enumeration, differential oracle against the uninterrupted run"),
 }
 
 NOT_YET = "check not built yet in this session; planned (see DESIGN.md section 2)"
